@@ -259,7 +259,7 @@ func actionLists(thorough bool) [][]Action {
 			if p.Name == "t" && q.Name == "t" {
 				continue
 			}
-			out = append(out, append(acts("id=1", "phase=2", "pass"), p, q))
+			out = append(out, append(acts("id=1", "phase=2", "pass", "log"), p, q))
 		}
 	}
 	return out
@@ -285,8 +285,9 @@ func descriptions(thorough bool, emit func(axis string, d Desc)) {
 		maxLen = 4
 	}
 	operatorArgs(maxLen, func(arg string) {
-		for _, not := range []bool{false, true} {
-			emit("operator", Desc{Targets: []Target{argsKeyA}, Not: not, Op: "streq", Arg: arg, Actions: basicActs})
+		emit("operator", Desc{Targets: []Target{argsKeyA}, Op: "streq", Arg: arg, Actions: basicActs})
+		if thorough || len(arg) <= 2 {
+			emit("operator", Desc{Targets: []Target{argsKeyA}, Not: true, Op: "streq", Arg: arg, Actions: basicActs})
 		}
 		if thorough || len(arg) <= 2 {
 			emit("operator", Desc{Targets: []Target{{Coll: "ARGS_GET", Kind: kindRegex, Key: "^a|b$"}, {Coll: "ARGS_GET", Kind: kindPlain, Key: "b", Neg: true}},
@@ -296,7 +297,9 @@ func descriptions(thorough bool, emit func(axis string, d Desc)) {
 	// action axis
 	for _, al := range actionLists(thorough) {
 		emit("actions", Desc{Targets: []Target{argsKeyA}, Op: "streq", Arg: "v1", Actions: al})
-		emit("actions", Desc{SecAction: true, Actions: al})
+		if thorough || len(al) <= 5 {
+			emit("actions", Desc{SecAction: true, Actions: al})
+		}
 		if thorough {
 			emit("actions", Desc{Targets: []Target{{Coll: "ARGS_GET", Kind: kindRegex, Key: "^a|b$", Quoted: true}}, Not: true, Op: "streq", Arg: `a" "b\\`, Actions: al})
 		}
